@@ -61,7 +61,9 @@ class SInFrame(Model):
     def sym_getattr(self, ctx, name):
         if name == 'columns':
             return _InCols(self)
-        if name in ('loc', 'iloc', 'values'):
+        if name in ('loc', 'iloc', 'at', 'iat'):
+            return _InIndexer(self, name)
+        if name == 'values':
             return Opaque('skel')
         return super().sym_getattr(ctx, name)
 
@@ -110,6 +112,20 @@ class SInFrame(Model):
             a = self.raw_extra if c == 'EXTRA' else cur[c]
             eqs.append(a[i] == a[k])
         return z3.And(*eqs) if eqs else z3.BoolVal(True)
+
+
+class _InIndexer(Model):
+    """frame.loc / .iloc / .at / .iat of the input frame: reads are opaque (skeleton mode), a *store* changes cell values the
+    postcondition speaks about and is not modelled -- fail closed"""
+
+    def __init__(self, fr, kind):
+        self.fr, self.kind = fr, kind
+
+    def sym_getitem(self, ctx, idx):
+        return Opaque('skel')
+
+    def sym_setitem(self, ctx, idx, val):
+        raise HardUnsupported(f'assignment through .{self.kind}[...] into the (copy of the) input frame')
 
 
 class _InCols(Model):
@@ -173,19 +189,39 @@ class _RowMask(Model):
         return t if self.eq else z3.Not(t)
 
 
+def index_level_named_like_a_key(ctx):
+    """ghost Bool of the run: some level of the *caller's* index is named like a merge key ('dt' / 'ceilo') -- a legal frame (e.g.
+    df.set_index('dt', drop=False)); pandas then refuses `merge(on=[...])` with ValueError (ambiguous key)"""
+    g = ctx.ghost
+    if 'index_level_named_like_a_key' not in g:
+        g['index_level_named_like_a_key'] = z3.Bool('index_level_named_like_a_key')
+        ctx.extractors['index_level_named_like_a_key'] = lambda m: z3.is_true(m.eval(g['index_level_named_like_a_key'], model_completion=True))
+    return g['index_level_named_like_a_key']
+
+
 class _RowSel(Model):
-    def __init__(self, fr, mask, cols=None):
+    def __init__(self, fr, mask, cols=None, user_index=True):
         self.fr, self.mask, self.cols = fr, mask, cols
         self.cur = dict(fr.cur)
+        self.user_index = user_index          # the selection still carries the caller's index (labels and level names)
 
     def sym_getitem(self, ctx, idx):
         if isinstance(idx, list) and all(isinstance(c, str) for c in idx):
-            return _RowSel(self.fr, self.mask, list(idx))
+            return _RowSel(self.fr, self.mask, list(idx), self.user_index)
         return Opaque('skel')
+
+    def m_reset_index(self, ctx, drop=False, **kw):
+        if drop is not True or kw:
+            raise HardUnsupported('reset_index shape')
+        # same rows, same values, in the same order, under a fresh unnamed RangeIndex
+        return _RowSel(self.fr, self.mask, self.cols, user_index=False)
 
     def m_merge(self, ctx, other, how=None, on=None, **kw):
         if how != 'inner' or not isinstance(other, _RowSel) or other.fr is not self.fr or not isinstance(on, list) or kw:
             raise HardUnsupported('merge shape')
+        if self.user_index or other.user_index:
+            # pandas: a key that is both a column and an index level is ambiguous -> ValueError
+            ctx.safe('merge_keys_unambiguous', z3.Not(index_level_named_like_a_key(ctx)), exc='ValueError')
         return _Merged(self, other, list(on))
 
 
